@@ -47,7 +47,7 @@ type summary struct {
 	SchedTotal int              `json:"sched_total_local"`
 	States     []string         `json:"states"`
 	StateTotal int              `json:"state_total_local"`
-	SimNs      int64            `json:"sim_ns"`
+	SimSec     float64          `json:"sim_s"`
 	Steps      int64            `json:"steps"`
 	Samples    []any            `json:"samples"`
 	WallS      float64          `json:"wall_s"`
@@ -195,7 +195,7 @@ func TestWorker(t *testing.T) {
 		if res.SchedHash != 0 && len(scheds) < 4*setCap {
 			scheds[res.SchedHash] = struct{}{}
 		}
-		sum.SimNs += res.SimNs
+		sum.SimSec += res.SimSec
 		sum.Steps += res.Steps
 		if res.Sample != nil && len(sum.Samples) < 3 {
 			sum.Samples = append(sum.Samples, res.Sample)
